@@ -3,6 +3,7 @@ package test
 import (
 	"bytes"
 	"fmt"
+	"io"
 	"sync"
 	"testing"
 
@@ -128,6 +129,39 @@ func TestVerifC17Race(t *testing.T) {
 					t.Errorf("concurrent deep read mismatch: %v", err)
 				}
 			}()
+		}
+		wg.Wait()
+	}	// a file as other writers may leave it: no BlockSizes over dag-pb leaves (children
+	// must be opened to learn their sizes); fresh node per round, readers from different offsets
+	var flinks []pbLinkSpec
+	want := []byte("0123456789abcdef")
+	for i := range want {
+		leaf := pbField(pbBytes(pbField(nil, 1, 2), 2, want[i:i+1]), 3, 1)
+		flinks = append(flinks, pbLinkSpec{hash: storeNode(&ls, mkPBNode(true, leaf, nil)), hasName: true, hasTsize: true, tsize: 8})
+	}
+	nb := storeNode(&ls, mkPBNode(true, pbField(pbField(nil, 1, 2), 3, uint64(len(want))), flinks))
+	for round := 0; round < 100; round++ {
+		nnd, _ := ls.Load(ipld.LinkContext{}, nb, dagpb.Type.PBNode)
+		nnode, err := file.NewUnixFSFile(nil, nnd, &ls)
+		if err != nil {
+			t.Fatal(err)
+		}
+		var wg sync.WaitGroup
+		for g := 0; g < 4; g++ {
+			wg.Add(1)
+			go func(g int) {
+				defer wg.Done()
+				rs, err := nnode.AsLargeBytes()
+				if err != nil {
+					t.Errorf("reader: %v", err)
+					return
+				}
+				rs.Seek(int64(g), io.SeekStart)
+				b, err := io.ReadAll(rs)
+				if err != nil || !bytes.Equal(b, want[g:]) {
+					t.Errorf("concurrent read without blocksizes mismatch: %v", err)
+				}
+			}(g)
 		}
 		wg.Wait()
 	}
